@@ -608,7 +608,11 @@ class QuorumSensing:
         abstain_votes: list[Vote]
     ) -> QuorumResult:
         """Fixed threshold count (e.g., need exactly N permits)."""
-        threshold = int(self.custom_threshold or len(self.colony) // 2 + 1)
+        required = self.custom_threshold or len(self.colony) // 2 + 1
+        if 0 < required < 1:
+            # A fractional threshold (EmergencyQuorum passes 0.3) is a share of the colony
+            required = math.ceil(required * len(self.colony))
+        threshold = max(1, int(required))
 
         reached = len(permit_votes) >= threshold
         decision = VoteType.PERMIT if reached else VoteType.BLOCK
